@@ -20,7 +20,7 @@ Streams
                     host_url / full_path / args  vs  Model.UrlBuilder; oracle: args / query recovered
   from-environ      environ of EnvironBuilder(path, query mapping, base_url) -> EnvironBuilder.from_environ ->
                     get_environ -> Request vs Model.UrlBuilder.fromEnviron; oracle: Request.path / args / host / url
-                    equal those of the original environ (known findings F15f, and F15c through this call site)
+                    equal those of the original environ (F15f repaired in 18c1dce: regression cases; known finding F15c through this call site)
   proxyfix          ProxyFix over trust counts x forwarded headers x environs vs Model.UrlProxyFix;
                     oracle: PATH_INFO unchanged, Request.path as without the middleware
   gethost-kernel    sansio.utils.get_host(scheme, host[, server]) vs Model.UrlEnviron.getHost / UrlHostServer.getHostFull
@@ -1185,7 +1185,6 @@ class FromEnviron(Stream):
     empty or starts with '/'"."""
 
     name = "from-environ"
-    F15F_TAG = "[from_environ read the decoded PATH_INFO as URL syntax: %XX decoded once more, '#...' cut, '?' refused; every other field is recovered]"
     F15C_TAG = "[TAB/CR/LF removed by urlsplit inside from_environ's EnvironBuilder(path=...); every other field is recovered]"
     corpus = [
         {"path": hs(p), "query": [[hs(k), hs(v)] for k, v in q], "base": b}
@@ -1193,9 +1192,11 @@ class FromEnviron(Stream):
             ("/", [], 0),
             ("/é/日本 x", [("é", "ü"), ("a", "b c"), ("a", "&=+%#")], 1),
             ("/a b/c+d;v=1", [("k", "")], 2),
-            ("/%2541", [], 0),  # F15f: PATH_INFO '/%41' comes back as '/A'
-            ("/a%3Fb", [], 0),  # F15f: PATH_INFO '/a?b' is refused (ValueError)
-            ("/a%23b", [("k", "v")], 1),  # F15f: PATH_INFO '/a#b' comes back as '/a'
+            # regression cases of F15f (repaired in 18c1dce, `_quote_url_syntax`): these must round-trip
+            ("/%2541", [], 0),  # PATH_INFO '/%41' used to come back as '/A'
+            ("/a%3Fb", [], 0),  # PATH_INFO '/a?b' used to be refused (ValueError)
+            ("/a%23b", [("k", "v")], 1),  # PATH_INFO '/a#b' used to come back as '/a'
+            ("/a%3Fb%23c%2541%25", [("k", "v")], 2),
             ("/%25C3%25A9/%2525", [("q", "%41")], 8),
             ("/a%09b", [], 0),  # F15c through from_environ
             ("/100%25", [], 0),  # a literal '%' that starts no escape is recovered
@@ -1272,12 +1273,10 @@ class FromEnviron(Stream):
 
     @staticmethod
     def reinterpreted(pi):
-        """what a decoded PATH_INFO becomes when it is read as the URL-syntax `path` argument (the specific shape
-        of F15f / F15c): None = refused because of '?', else TAB / CR / LF deleted, cut at '#', unquoted"""
-        if "?" in pi:
-            return None
-        p = strip_tcl(pi).split("#", 1)[0]
-        return "/" + unquote(p).lstrip("/")
+        """what a decoded PATH_INFO with TAB / CR / LF becomes on the way through from_environ (the specific
+        shape of F15c at this call site): `_quote_url_syntax` protects '%', '?', '#'; urlsplit inside
+        EnvironBuilder(path=...) deletes TAB / CR / LF; the rest is quoted and unquoted back"""
+        return strip_tcl(pi)
 
     def oracle(self, case, real_out):
         try:
@@ -1287,16 +1286,14 @@ class FromEnviron(Stream):
         pi = self.decoded_path_info(env)
         if not self.in_domain(pi):
             return None
-        f15f = bool(HEX2.search(pi)) or "?" in pi or "#" in pi
         f15c = strip_tcl(pi) != pi
-        tag = (" " + self.F15F_TAG) if f15f else (" " + self.F15C_TAG) if f15c else ""
+        tag = (" " + self.F15C_TAG) if f15c else ""
         if real_out.startswith("EXC"):
-            known_shape = f15f and "?" in pi and real_out == "EXC:ValueError"
-            return f"from_environ / get_environ raised {real_out} on the environ of a request for {r0['path']!r}" + (tag if known_shape else "")
+            return f"from_environ / get_environ raised {real_out} on the environ of a request for {r0['path']!r}"
         _env, _bp, req = split_report(real_out)
         eff = r0["path"]
-        if (f15f or f15c) and req["path"] != r0["path"] and req["path"] == self.reinterpreted(pi):
-            eff = req["path"]  # the specific shape of the known findings; everything else must still hold
+        if f15c and req["path"] != r0["path"] and req["path"] == self.reinterpreted(pi):
+            eff = req["path"]  # the specific shape of the known finding; everything else must still hold
         else:
             tag = ""
         if req["args"] != r0["args"]:
@@ -1319,11 +1316,11 @@ class FromEnviron(Stream):
         return None
 
     def finding_key(self, case, what):
-        """F15f only for its specific shape: the decoded PATH_INFO contains '%' + two hex digits, '?' or '#'; the
-        outcome is exactly the reinterpretation (oracle: tag) with every other field recovered; and the Lean model
-        of from_environ (`from_environ_roundtrip_full_false`) predicts exactly the observed report. Without those
-        characters but with TAB / CR / LF it is F15c (from_environ calls EnvironBuilder(path='/a\\tb'))."""
-        key = "F15f" if what.endswith(self.F15F_TAG) else "F15c" if what.endswith(self.F15C_TAG) else None
+        """Nothing maps to F15f any more (repaired in 18c1dce). F15c only for its specific shape at this call
+        site (from_environ calls EnvironBuilder(path=<quoted '/a\tb'>)): the decoded PATH_INFO contains TAB / CR / LF,
+        the outcome is exactly that text with those characters removed (oracle: tag) with every other field
+        recovered, and the Lean model of from_environ predicts exactly the observed report."""
+        key = "F15c" if what.endswith(self.F15C_TAG) else None
         if key is None:
             return None
         try:
@@ -1331,8 +1328,7 @@ class FromEnviron(Stream):
             pi = self.decoded_path_info(env)
         except Exception:  # noqa: BLE001
             return None
-        has_f = bool(HEX2.search(pi)) or "?" in pi or "#" in pi
-        if (key == "F15f") != has_f or (key == "F15c" and strip_tcl(pi) == pi):
+        if strip_tcl(pi) == pi:
             return None
         from vlib.core import Driver, real_out
 
@@ -1566,8 +1562,8 @@ class GetHostKernel(Stream):
 
 CHECK = Check(
     prop="C15",
-    gen=["UrlTables", "UrlGlue", "Urlencode", "PyFns_Url", "Http", "PyFns_Http", "PyFns_HttpDict", "PyFns_Internal", "PyFns_ProxyFix"],
-    modules=["WzVerif.Props.C15", "WzVerif.Props.C15T", "WzVerif.Props.C15T2"],
+    gen=["UrlTables", "UrlGlue", "Urlencode", "PyFns_Url", "Http", "PyFns_Http", "PyFns_HttpDict", "PyFns_Internal", "PyFns_ProxyFix", "PyFns_BaseUrl"],
+    modules=["WzVerif.Props.C15", "WzVerif.Props.C15T", "WzVerif.Props.C15T2", "WzVerif.Props.C15T3"],
     streams=[QuoteKernel(), UrlsplitKernel(), IriUri(), EnvironRoundtrip(), EnvironKernel(), BuilderForms(), FromEnviron(), Dispatcher(), ProxyFixStream(), GetHostKernel()],
     assumptions=[
         "C15T2 (ProxyFix._get_real_value / __call__ as regenerated from the source): the environ is a dict of texts (the nested bookkeeping entry werkzeug.proxy_fix.orig and the bound-method alias environ_get = environ.get are declared no-ops); the result is the environ handed to the wrapped application",
@@ -1580,7 +1576,7 @@ CHECK = Check(
         "the one-step fixpoint / round-trip claims (theorems and oracle) are for text whose every '%' starts a two-hex-digit escape (the property's '%XX' grammar); a bare '%' is only compared against the model, and the negation is proved on the witness '%%34%31'",
         "environ-roundtrip is stated for paths starting with one '/', without '%', '?', '#' (URL syntax for EnvironBuilder's path argument: these are interpreted, not transported); tab/CR/LF in the path are removed by urlsplit inside EnvironBuilder (known finding F15c - a violation is mapped to F15c only when Request.path is the argument with exactly TAB/CR/LF removed, every other clause holds for the stripped path, and the Lean model predicts exactly the observed outcome); queries are arbitrary str mappings without lone surrogates",
         "DispatcherMiddleware is modelled on the raw environ strings (it compares mount keys with PATH_INFO as is)",
-        "from-environ is stated for environs whose decoded PATH_INFO starts with exactly one '/' (WSGI; the property's \"paths not starting with '//'\"); base URLs are those of the fixed table (no '%', '?', '#' in SCRIPT_NAME, which goes through the URL-syntax base_url in the same way). Known finding F15f: a violation is mapped to it only when the decoded PATH_INFO contains '%' + two hex digits, '?' or '#', the observed Request.path is exactly that text read as URL syntax (TAB/CR/LF deleted, cut at '#', unquoted once; ValueError for '?'), every other clause holds, and the Lean model of from_environ predicts exactly the observed report; with TAB/CR/LF only it is F15c (from_environ calls EnvironBuilder(path='/a\\tb'))",
+        "from-environ is stated for environs whose decoded PATH_INFO starts with exactly one '/' (WSGI; the property's \"paths not starting with '//'\"); base URLs are those of the fixed table (no '%', '?', '#' in SCRIPT_NAME). F15f (decoded PATH_INFO re-read as URL syntax) is repaired in 18c1dce (`_quote_url_syntax`): nothing maps to it any more, its former failing inputs are regression cases of the corpus; TAB / CR / LF in the decoded PATH_INFO are still removed (F15c at this call site, mapped only when the outcome is exactly that and the Lean model predicts it)",
         "path arguments whose path component itself starts with '//' and names a host ('////x': read as an authority a second time inside iri_to_uri) are outside the property's quantifier and are not sent to the model (the opaque IDNA / ipaddress / NFKC verdicts for that second host are not part of the driver lines); the kernel op envpath (Url.environPathInfo) is compared only for path components not starting with '//'",
         "the reconstructed URL's query component denotes the mapping (environ_url_query_denotes_mapping): C02's unquote model inside parse_qsl is proved equal to this property's (unquote_models_agree); get_current_url's quote leaves _urlencode's alphabet alone by a decide obligation over the two regenerated safe= literals (urlencode_alphabet_fixed)",
         "sansio get_host's fallback to (SERVER_NAME, SERVER_PORT) is modelled (Model/UrlHostServer.lean), validated by stream gethost-kernel and tied by the regenerated live table Gen.UrlGlue.getHostServerTable (get_host_server_table_agrees); trusted_hosts is not part of this property",
@@ -1592,7 +1588,7 @@ CHECK = Check(
 
 MANIFEST = {
     "level_text": "Machine-checked Lean 4 theorems about an executable model of urllib quote/unquote with werkzeug's error handler, iri_to_uri / uri_to_iri on split components, the latin-1 dances and DispatcherMiddleware's mount loop: quote output is ASCII for every input and idempotent for every safe set iri_to_uri uses (decide on the literals collected from the AST on every run), hence iri_to_uri is ASCII and idempotent component-wise; the dance round trip is lossless for every string; uri_to_iri is a fixpoint after one step on every component whose '%' all start '%XX' escapes (UTF-8 decoder with CPython's error spans modelled; keep tables evaluated from the live patterns); the dispatcher preserves SCRIPT_NAME+PATH_INFO and picks the longest '/'-boundary mount. IRI->URI->IRI is stable after one round for every component of that grammar (the model's UTF-8 decoder and Lean's encoder are proved mutually inverse); unquote inverts quote on text without '%', hence the path given to EnvironBuilder reaches Request.path unchanged through the dances. urlsplit / urlunsplit are modelled too, and the component theorems are lifted to whole URL text for URLs of the grammar (iri_to_uri ASCII + idempotent; uri_to_iri one-step fixpoint; IRI->URI->IRI stable) under stated laws of the opaque IDNA / ipaddress / NFKC steps. Tied to the code by differential streams (incl. urlsplit-kernel and the end-to-end environ-kernel); the environ round trip is proved from EnvironBuilder's arguments (urlsplit(path), both iri_to_uri calls, the base_url setter, _path_encode, the dances, Request.__init__, get_host, get_current_url) to Request.path / root_path / host / url, with every exclusion shown necessary; Request.args recovers every Unicode mapping (composition with C02's parse_qsl / _urlencode theorem); full_path, the url / base_url / root_url / host_url family as text, from_environ, get_host on every host[:port], the dispatcher's default case and ProxyFix (PATH_INFO untouched, n-th value from the right, port and prefix rewriting) have theorems; constants and shapes of the glue (default ports, keep sets, environ dict entries, call sites, ProxyFix writes) are regenerated from the source and tied by decide obligations. The query component of the reconstructed URL, parsed by parse_qsl, is the mapping given to the builder for every list of pairs over Unicode (C02's unquote model proved equal to this one; uri_to_iri's query unquoter proved not to change what parse_qsl reads on every %XX-well-formed text); get_host's server-address fallback is modelled and tied to a live table.",
-    "level_note": "Trusted: Lean kernel; extract.py; the correspondence harness; CPython urllib/codecs for modelled primitives. urlsplit/urlunsplit are modelled; IDNA, ipaddress and the NFKC test are opaque with stated laws; parse_list_header (ProxyFix) is C06's. All DESIGN theorems (P0, P1) proved, nothing OPEN. Known findings F15c (EnvironBuilder drops TAB/CR/LF from the path) and F15f (EnvironBuilder.from_environ reads the decoded PATH_INFO as URL syntax: %XX decoded once more, '#...' cut, '?' refused - negation witness from_environ_roundtrip_full_false, _partial from_environ_roundtrip for every path without a %XX escape); F15a / F15b / F15d (Request.url read a literal %XX of the unquoted path as an escape, 899f28c) / F15e (wsgi.get_current_url skipped the decoding dance, 16e16ac) were repaired in /repo (c7898ed, 319c4e1) and are regression cases of stream iri-uri.",
+    "level_note": "Trusted: Lean kernel; extract.py; the correspondence harness; CPython urllib/codecs for modelled primitives. urlsplit/urlunsplit are modelled; IDNA, ipaddress and the NFKC test are opaque with stated laws; parse_list_header (ProxyFix) is C06's. All DESIGN theorems (P0, P1) proved, nothing OPEN. Known finding F15c (EnvironBuilder drops TAB/CR/LF from the path; also through from_environ: from_environ_roundtrip_needs_no_tab). F15f (from_environ re-read the decoded PATH_INFO as URL syntax) is repaired in 18c1dce: from_environ_roundtrip holds for every decoded path, from_environ_f15f_regression pins the former failing inputs; F15a / F15b / F15d (Request.url read a literal %XX of the unquoted path as an escape, 899f28c) / F15e (wsgi.get_current_url skipped the decoding dance, 16e16ac) were repaired in /repo (c7898ed, 319c4e1) and are regression cases of stream iri-uri.",
     "technique": "Lean 4 proof (induction over byte lists, decide over AST-collected literals and regenerated keep tables, loop invariant for the dispatcher) + model/code correspondence + property oracles",
     "design_ref": "DESIGN.md section 4, C15",
 }
